@@ -33,6 +33,11 @@ TEXTS = {
     'blank': ('   ', ''),
     'loc': ('Seattle WA', 'Seattle WA'),
     'k': ('kind-1', 'kind-1'),
+    'pay': ('PAYROLL ACME', 'PAYROLL ACME'),
+    'nv1': ('ALFA NEWSTORE', 'ALFA NEWSTORE'),
+    'nv2': ('PAYROLL EXTRA', 'PAYROLL EXTRA'),
+    'nv3': ('SOMETHING ELSE 9', 'SOMETHING ELSE 9'),
+    'nv4': ('ALFA REFUND', 'ALFA REFUND'),
 }
 # id -> (text under '.', cents | None, text under ',', cents | None)
 AMOUNTS = {
